@@ -64,3 +64,39 @@ def run_family(ctx, want_names=False, want_quick=True, only_ops=None, seeds=None
     ctx.coverage["exhaustive"] = True
     ctx.coverage["rule"] = ("every transition of the bounded Store model printed by TLC (BFS, VIEW without the "
                             "observation variable) is one replayed edge; distinct = distinct edge records")
+
+
+def histories(ctx, n, name="hist"):
+    """Model histories (tlc -simulate on SimStore) replayed against ONE real directory each, no re-materialisation
+    between the steps: salts, time stamps and aux bytes are carried by the real files."""
+    ntr = max(10, n // 20)
+    res = ctx.run_tlc("MC_SimStore.tla", "MC_SimStore.cfg", workers=1, simulate=ntr, depth=32, timeout=600, name="simstore")
+    hs, seen = [], set()
+    for h in res["hists"]:
+        key = json.dumps(h[:-1], sort_keys=True)
+        if key in seen and len(hs) >= ntr and (len(hs) >= n):
+            continue
+        seen.add(key)
+        hs.append(h)
+        if len(hs) >= n:
+            break
+    if not hs:
+        ctx.inconclusive.append("SimStore produced no histories (%s)" % res["status"])
+        return
+    exe = ctx.build("./cmd/storereplay")
+    bf = os.path.join(ctx.scratch, name + ".ndjson")
+    vlib.write_ndjson(bf, hs)
+    of = os.path.join(ctx.scratch, name + ".result.json")
+    r = subprocess.run([exe, "-behaviours", bf, "-scratch", os.path.join(ctx.scratch, "replay-" + name), "-seed", str(ctx.seed),
+                        "-workers", str(vlib.NCPU), "-out", of], stdout=subprocess.PIPE, stderr=subprocess.STDOUT, text=True)
+    if r.returncode != 0:
+        ctx.fatal("storereplay (histories) failed: " + r.stdout[-2000:])
+    out = json.load(open(of))
+    for v in (out["violations"] or []):
+        ctx.violation(v["prop"], "history:" + v["key"], v["detail"], edge=v.get("edge"))
+    c = ctx.coverage
+    c["histories_replayed"] = out["behaviours"]
+    c["history_steps"] = out["edges"]
+    c["evaluations"] = c.get("evaluations", 0) + out["executions"]
+    c["traces_validated_against_impl"] = c.get("traces_validated_against_impl", 0) + out["behaviours"]
+    ctx.sample({"history_first_steps": [{k: e[k] for k in ("op", "name", "pw", "adm", "def", "res")} for e in hs[0][:5]]})
